@@ -52,6 +52,9 @@ def _case(rng, fam, gseed, cfgd):
     if cfgd.get("scaling") == "custom" and rng.random() < 0.3:
         case["wspan"] = 75   # very unequal scales: scaled bounds of huge / tiny magnitude
     case["y0"] = "rand" if rng.random() < 0.3 else "none"
+    if rng.random() < 0.12:
+        # the k-th linear solve silently returns a vector containing NaN
+        case["lin_nan"] = int(rng.integers(0, 30))
     if fam in ("QP", "NLP") and rng.random() < 0.25:
         # start point handed over with an integer dtype (array of ints / Python int), no slacks, no scaling
         cfgd["scaling"] = "none"
@@ -91,9 +94,12 @@ def run_case(case):
         p.int_start_used = not isinstance(p.x0, np.ndarray) or p.x0.dtype.kind == "i"
     if dc:
         p.params.deriv_check = DerivCheck.CheckAll
-    out = mon.run_solve(p.rec, p.params, p.x0, p.y0)
+    out = mon.run_solve(p.rec, p.params, p.x0, p.y0,
+                        lin_fail=("nan", case["lin_nan"]) if "lin_nan" in case else None)
     cls = work.outcome_class(out)
     res = {"viol": [], "ctr": {"solves": 1, "outcome_" + cls.split("@")[0]: 1}}
+    if out.factory is not None and out.factory.fired:
+        res["ctr"]["solves_with_silent_nan_from_linear_solver"] = 1
     if out.construct_exc is not None:
         return res
     w = work.weights_of(out.solver, p.spec)
@@ -127,11 +133,12 @@ def finalize(agg, tier):
     return {
         "rule": "all problem families x pairwise covering array + random configurations (all Newton types, active-set "
                 "rules, controllers, scalings) x in-bounds starts (generator start, integer-dtype arrays / Python int scalars, resampled start incl. components "
-                "exactly on bounds, x0=None) x derivative check on in 20% of the runs (exercises the exemption); "
+                "exactly on bounds, x0=None) x derivative check on in 20% of the runs (exercises the exemption) x in 12% of the runs one linear solve that silently returns a vector containing NaN; "
                 "non-trivial = more than 20 non-exempt evaluations were checked; distinct by spec seed",
         "floors": {"evals_checked": 10000, "newton_Simplified": 50, "newton_Full": 50, "newton_ActiveSet": 50,
                    "newton_Globalized": 50, "evals_exempt": 100, "callback_iterates_checked": 5000,
-                   "starts_on_a_bound": 50, "integer_dtype_starts": 10},
+                   "starts_on_a_bound": 50, "integer_dtype_starts": 10,
+                   "solves_with_silent_nan_from_linear_solver": 20},
         "assumptions": ["exemptions are decided from the recorded call-site chain (deriv_check:deriv_check, "
                         "scale:create_scaling), nothing else is exempt"],
     }
